@@ -30,6 +30,9 @@ pub enum Which {
 pub struct Tamper {
     pub file: Which,
     pub kind: TamperKind,
+    /// the tampered file keeps its original modification time (cp -p, rsync -t, tar extraction)
+    #[serde(default)]
+    pub keep_mtime: bool,
 }
 
 #[derive(Serialize, Deserialize, Clone, Debug)]
@@ -114,7 +117,7 @@ fn gen_tamper(rng: &mut Rng, sizes: [usize; 3], bytes: [&[u8]; 3]) -> Tamper {
         8 => TamperKind::Append { hex: crate::proto::hex(*rng.pick(&[&b"\n"[..], &b" "[..], &b"x"[..], &b"{}"[..]])) },
         _ => TamperKind::RewriteSame,
     };
-    Tamper { file, kind }
+    Tamper { file, kind, keep_mtime: rng.chance(1, 3) }
 }
 
 fn apply(t: &TamperKind, orig: &[u8]) -> Vec<u8> {
@@ -274,8 +277,17 @@ fn exec_c17(sc: &C17Scenario) -> Outcome {
             Which::Lockfile => changed && lock_checksum(&new) != lock_checksum(&orig[i]),
         };
         let unconstrained = t.file == Which::Lockfile && changed && !must_reject;
+        let mtime = std::fs::metadata(&paths[i]).ok().and_then(|m| m.modified().ok());
         if std::fs::write(&paths[i], &new).is_err() {
             return Outcome::skip("cannot tamper");
+        }
+        if t.keep_mtime {
+            if let Some(mt) = mtime {
+                // an even older time than the original, as a restored backup would have
+                let _ = mt;
+                let _ = crate::gitmodel::set_old_mtime(&paths[i]);
+                out.fault("tamper_keeping_an_old_mtime", 1);
+            }
         }
         let desc = format!("{:?} (file {} B -> {} B)", t, orig[i].len(), new.len());
         out.fault(&format!("tamper_{:?}_{}", t.file, match &t.kind { TamperKind::Subst { .. } => "subst", TamperKind::DropTail { .. } => "droptail", TamperKind::Truncate { .. } => "truncate", TamperKind::Append { .. } => "append", TamperKind::RewriteSame => "rewrite_same" }).to_lowercase(), 1);
